@@ -7,10 +7,17 @@
     ASTNode::getWellList  (`*NAME` = WLIST look-up, leading `\` stripped, filter of the wells that
                            carry the summary function)
 
-  Everything works on `List Char` (the bytes of the token).  The VALUE `strtod` returns is still
-  taken from the real code (decimal → binary rounding is not modelled), only the accepted syntax.
+  Everything works on `List Char` (the bytes of the token).
+
+  Fourth round: the VALUE `strtod` returns (`parse_right`: `ASTNode{strtod(token)}`) is computed by the
+  model too (`numBits`): decimal literals through the correctly rounded `Strtod.strtod` (overflow =
+  ±HUGE_VAL, no conversion = 0), `inf`/`infinity`/`nan` with sign, hexadecimal floating literals through
+  the same `roundRatio`.  Only `nan(chars)` (glibc builds a payload) still takes the bits of the real code.
+  `fnmatch` bracket expressions `[abc]`, `[a-z]`, `[!a]`, `[^a]`, `[]a]`, `[\]]` (no `[:class:]`, `[=c=]`,
+  `[.c.]`) are inside `globMatch`.
 -/
 import OpmVerif.Model.Action
+import OpmVerif.Model.Strtod
 
 namespace OpmVerif.Act
 
@@ -107,6 +114,76 @@ def classifyLower (l : List Char) : TT :=
 /-- `Parser::get_type` -/
 def classify (s : List Char) : TT := classifyLower (lowerL s)
 
+
+/-! ### the value of a number token -/
+
+def infBits (neg : Bool) : Nat := (if neg then 2 ^ 63 else 0) + 0x7FF0000000000000
+def nanBits (neg : Bool) : Nat := (if neg then 2 ^ 63 else 0) + 0x7FF8000000000000
+
+/-- what the caller of `strtod` sees of a `Strtod.Res` -/
+def resBits : Strtod.Res → Option Nat
+  | .bits b _ => some b
+  | .overflow neg => some (infBits neg)
+  | .noConv => some 0
+  | .unsupported => none
+
+def hexDigVal (c : Char) : Nat :=
+  if isDig c then c.toNat - 48
+  else if decide ('a' ≤ c ∧ c ≤ 'f') then c.toNat - 87
+  else c.toNat - 55
+
+def hexMant (ds : List Char) : Nat := ds.foldl (fun a c => a * 16 + hexDigVal c) 0
+
+def hexFracPart : List Char → List Char
+  | '.' :: r => r.takeWhile isHexDig
+  | _ => []
+
+def hexAfterFrac : List Char → List Char
+  | '.' :: r => r.dropWhile isHexDig
+  | s3 => s3
+
+/-- a hexadecimal floating literal after `0x`: mantissa digits, fraction digits, binary exponent;
+correctly rounded like the decimal ones.  The exponent is capped where nothing changes any more. -/
+def hexBits (neg : Bool) (s : List Char) : Nat :=
+  let sign : Nat := if neg then 2 ^ 63 else 0
+  let ip := s.takeWhile isHexDig
+  let s3 := s.dropWhile isHexDig
+  let fp := hexFracPart s3
+  let rest := hexAfterFrac s3
+  let m := hexMant (ip ++ fp)
+  let e2 : Int := (match rest with
+    | c :: r =>
+      if c = 'p' ∨ c = 'P' then
+        let ed := (Strtod.afterSign r).takeWhile isDig
+        let z := ed.dropWhile (· = '0')
+        let v : Nat := if z.length > 7 then 10000000 else Strtod.dval z
+        if ed = [] then 0 else if Strtod.signOf r then -(v : Int) else (v : Int)
+      else 0
+    | [] => 0) - 4 * (fp.length : Int)
+  if m = 0 then sign
+  else if e2 + 4 * ((ip ++ fp).length : Int) > 5000 then infBits neg
+  else if e2 + 4 * ((ip ++ fp).length : Int) < -5000 then sign
+  else
+    match (if 0 ≤ e2 then Strtod.roundRatio (m * 2 ^ e2.toNat) 1 else Strtod.roundRatio m (2 ^ (-e2).toNat)) with
+    | none => infBits neg
+    | some (b, _) => sign + b
+
+/-- the bits of `strtod(token)`; `none` = not modelled (`nan(chars)`: taken from the real code) -/
+def numBits (s : List Char) : Option Nat :=
+  match Strtod.strtod s with
+  | .unsupported =>
+    let s1 := s.dropWhile isSpaceC
+    let neg := Strtod.signOf s1
+    let b := lowerL (Strtod.afterSign s1)
+    if startsWith "inf".toList b then some (infBits neg)
+    else if startsWith "nan".toList b then
+      (match b.drop 3 with
+       | '(' :: _ => none
+       | _ => some (nanBits neg))
+    else if startsWith "0x".toList b then some (hexBits neg (b.drop 2))
+    else none
+  | r => resBits r
+
 /-- `dequote` (ActionX.cpp): `none` = "Unbalanced quote" -/
 def dequote (s : List Char) : Option (List Char) :=
   match s with
@@ -121,26 +198,122 @@ def anySuffix (f : List Char → Bool) : List Char → Bool
   | [] => f []
   | d :: t => f (d :: t) || anySuffix f t
 
-/-- `fnmatch(p, s, 0)` for patterns without bracket expressions: `*`, `?`, `\c` -/
-def globMatch : List Char → List Char → Bool
-  | [], s => s.isEmpty
-  | c :: p, s =>
-    if c = '*' then anySuffix (globMatch p) s
+/-! ### bracket expressions of `fnmatch` (glibc `fnmatch_loop.c`, flags 0, "C" locale)
+
+The scanner works on the pattern text behind `[` (and behind the `!` / `^`).  It handles one element per
+round — a character (`\c` = that character), or a range `a-z` when the `-` is followed by something other
+than `]` — and only THEN looks whether the next character is the closing `]`; so a `]` in first position
+is an ordinary member.  `[:class:]`, `[=c=]`, `[.c.]` are not modelled. -/
+
+inductive BrRes where
+  | matched (rest : List Char)     -- an element matched; `rest` still contains the tail of the bracket
+  | unmatched (rest : List Char)   -- the closing `]` was reached; `rest` = pattern behind it
+  | nomatch                        -- `FNM_NOMATCH` at once (`\` or a range end at the end of the pattern)
+  | unterminated                   -- no closing `]`: the `[` is an ordinary character
+  deriving DecidableEq, Repr
+
+/-- `\c` → `c`; `none` = the pattern ends behind the backslash -/
+def unescape (c : Char) (p : List Char) : Option (Char × List Char) :=
+  if c = '\\' then (match p with | [] => none | e :: p' => some (e, p')) else some (c, p)
+
+def brScan (fn : Char) : Nat → List Char → BrRes
+  | 0, _ => .nomatch
+  | _ + 1, [] => .unterminated
+  | fuel + 1, c0 :: p0 =>
+    match unescape c0 p0 with
+    | none => .nomatch
+    | some (c, p) =>
+      let isRange : Bool := match p with
+        | '-' :: x :: _ => x ≠ ']'
+        | _ => false
+      if !isRange && c = fn then .matched p
+      else
+        match p with
+        | [] => .unterminated
+        | c1 :: p1 =>
+          if c1 = '-' ∧ p1.head? ≠ some ']' then
+            match p1 with
+            | [] => .nomatch
+            | ce :: p2 =>
+              match unescape ce p2 with
+              | none => .nomatch
+              | some (cend, p3) =>
+                if c ≤ fn ∧ fn ≤ cend then .matched p3
+                else
+                  match p3 with
+                  | [] => .unterminated
+                  | c2 :: p4 => if c2 = ']' then .unmatched p4 else brScan fn fuel (c2 :: p4)
+          else if c1 = ']' then .unmatched p1
+          else brScan fn fuel (c1 :: p1)
+
+/-- after a match: skip to the closing `]` (`\c` counts as one element); `none` = unterminated -/
+def skipBracket : List Char → Option (List Char)
+  | [] => none
+  | c :: p =>
+    if c = ']' then some p
+    else if c = '\\' then
+      (match p with
+       | [] => none
+       | _ :: p' => skipBracket p')
+    else skipBracket p
+
+/-- outcome of `[…` against the name character `d`; `p` = the pattern behind the `[`:
+`some (k, true)` = the bracket matches `d` and is `k` pattern characters long, `some (0, false)` … -/
+inductive BrOut where
+  | fail                       -- `FNM_NOMATCH`
+  | literal                    -- unterminated: `[` is an ordinary character
+  | consumed (k : Nat)         -- `d` is accepted; the bracket takes `k` characters of `p`
+  deriving DecidableEq, Repr
+
+def bracket (d : Char) (p : List Char) : BrOut :=
+  let neg : Bool := match p with
+    | '!' :: _ => true
+    | '^' :: _ => true
+    | _ => false
+  let body := if neg then p.drop 1 else p
+  match brScan d (body.length + 1) body with
+  | .nomatch => .fail
+  | .unterminated => .literal
+  | .matched rest =>
+    -- glibc 2.36: when the closing `]` is missing behind a matched element, the `[` is an ordinary
+    -- character as well (older versions: no match).  A pattern ending in `\` cannot match on either path.
+    (match skipBracket rest with
+     | none => .literal
+     | some p' => if neg then .fail else .consumed (p.length - p'.length))
+  | .unmatched p' => if neg then .consumed (p.length - p'.length) else .fail
+
+/-- `fnmatch(p, s, 0)`: `*`, `?`, `\c`, bracket expressions.  The first argument counts pattern
+characters still to be skipped (the inside of a bracket expression that has been evaluated). -/
+def globK : Nat → List Char → List Char → Bool
+  | _, [], s => s.isEmpty
+  | k + 1, _ :: p, s => globK k p s
+  | 0, c :: p, s =>
+    if c = '*' then anySuffix (globK 0 p) s
     else if c = '?' then
       (match s with
        | [] => false
-       | _ :: t => globMatch p t)
+       | _ :: t => globK 0 p t)
     else if c = '\\' then
       (match p with
        | [] => false
        | e :: p' =>
          match s with
          | [] => false
-         | d :: t => e = d && globMatch p' t)
+         | d :: t => e = d && globK 0 p' t)
+    else if c = '[' then
+      (match s with
+       | [] => false
+       | d :: t =>
+         match bracket d p with
+         | .fail => false
+         | .literal => d = '[' && globK 0 p t
+         | .consumed k => globK k p t)
     else
       (match s with
        | [] => false
-       | d :: t => c = d && globMatch p t)
+       | d :: t => c = d && globK 0 p t)
+
+def globMatch (p s : List Char) : Bool := globK 0 p s
 
 /-- `normalisePattern`: one leading backslash is dropped -/
 def normalisePattern : List Char → List Char
